@@ -30,6 +30,7 @@ __CPROVER_requires(g_ovk == ((g_k < g_n && OVF(g_fk)) ? 1 : 0) && SHAPE(g_fo) &&
    begin of the range (Skolem witness: every list has one; k == n: every file ends before the range) */
 __CPROVER_requires(!disjoint_sorted_files || (DS_PAIR && LB_FACTS))
 __CPROVER_assigns(FO_WINDOW, CMP_GHOST)
+__CPROVER_ensures(FO_TOKENS)
 __CPROVER_ensures(__CPROVER_return_value == 0 || __CPROVER_return_value == 1)
 /* completeness: an (arbitrary) file of the list that overlaps makes the answer 1 */
 __CPROVER_ensures(g_ovk ==> __CPROVER_return_value == 1)
@@ -93,6 +94,7 @@ __CPROVER_requires(g_ovk == ((g_k < g_n && OVF(g_fk)) ? 1 : 0) && SHAPE(g_fo) &&
 /* levels > 0 are sorted and disjoint; k is then the lower bound of the range begin */
 __CPROVER_requires(level == 0 || (DS_PAIR && LB_FACTS))
 __CPROVER_assigns(FO_WINDOW, CMP_GHOST)
+__CPROVER_ensures(FO_TOKENS)
 __CPROVER_ensures(__CPROVER_return_value == 0 || __CPROVER_return_value == 1)
 __CPROVER_ensures(g_ovk ==> __CPROVER_return_value == 1)
 __CPROVER_ensures((g_j < g_n && OVF(g_fj)) ==> __CPROVER_return_value == 1)
